@@ -22,7 +22,7 @@ Suffix(s, k) == IF Len(s) >= k THEN SubSeq(s, Len(s) - k + 1, Len(s)) ELSE ""
 VARIABLES l, st
 
 Fresh(e) == [job |-> e.job, run |-> e.run, checker |-> IF Has(e.cfg, "checker") THEN e.cfg.checker ELSE "none",
-             cur |-> <<>>, vec |-> <<>>, fds |-> {}, peak |-> 0, opens |-> <<>>, base |-> <<>>, viol |-> {}, nops |-> 0, lastret |-> <<>>]
+             cur |-> <<>>, vec |-> <<>>, fds |-> {}, peak |-> 0, opens |-> <<>>, base |-> <<>>, viol |-> {}, nops |-> 0, lastret |-> <<>>, inj |-> FALSE]
 InLib(e) == e.ph \in {"lib", "cb"}
 \* first component of a directory id ("D10/.kismet_0001" -> "D10")
 RootOf(d) == LET cut == {i \in 1..Len(d) : SubSeq(d, i, i) = "/"} IN
@@ -30,7 +30,7 @@ RootOf(d) == LET cut == {i \in 1..Len(d) : SubSeq(d, i, i) = "/"} IN
 PrivDir(d) == Suffix(d, 12) = ".kismet_temp" \/ d = "SRC" \/ d = "TMP"
 
 Step(s, e) ==
-    IF e.e = "call" /\ e.p = 1 /\ ~e.world THEN [s EXCEPT !.cur = e, !.vec = <<>>, !.fds = {}, !.peak = 0, !.opens = <<>>]
+    IF e.e = "call" /\ e.p = 1 /\ ~e.world THEN [s EXCEPT !.cur = e, !.vec = <<>>, !.fds = {}, !.peak = 0, !.opens = <<>>, !.inj = FALSE]
     ELSE IF e.e = "sys" /\ e.p = 1 /\ InLib(e) /\ Has(s.cur, "grp") THEN
         LET vec2 == Put(s.vec, e.call, Get(s.vec, e.call, 0) + 1)
             fds2 == IF e.call = "open" /\ e.res = "ok" THEN s.fds \cup {e.fd}
@@ -45,13 +45,14 @@ Step(s, e) ==
             cdir == IF istmp THEN e.path.d \o "/" \o e.path.n ELSE e.path.d
             v3 == IF e.call = "open" /\ e.res = "ok" /\ Has(e, "cmode") /\ Has(e, "path") /\ ~PrivDir(cdir) /\ e.path.d # "OUTSIDE"
                   THEN {<<e.seq, "NoLocks">>} ELSE {}
-        IN [s EXCEPT !.vec = vec2, !.fds = fds2, !.opens = opens2, !.viol = @ \cup v1 \cup v2 \cup v3]
+        IN [s EXCEPT !.vec = vec2, !.fds = fds2, !.opens = opens2, !.viol = @ \cup v1 \cup v2 \cup v3, !.inj = @ \/ Has(e, "inj")]
     ELSE IF e.e = "ret" /\ e.p = 1 /\ Has(s.cur, "grp") /\ ~(Has(e, "world") /\ e.world) THEN
         LET g == s.cur.grp
             v1 == IF g \in DOMAIN s.base /\ s.base[g] # s.vec THEN {<<e.seq, "ConstantCalls">>} ELSE {}
             v2 == IF Cardinality(s.fds) > (IF e.res = "some" THEN 1 ELSE 0) THEN {<<e.seq, "NoResidue">>} ELSE {}
             v3 == IF s.cur.api \in {"get", "touch"} /\ \E d \in DOMAIN s.opens : s.opens[d] > 2 THEN {<<e.seq, "TwoOpensPerDir">>} ELSE {}
-            v4 == IF e.ok /\ ~e.panic THEN {} ELSE {<<e.seq, "OpOK">>}
+            \* (an operation hit by an injected failure may report it; the descriptor bounds hold on its error path all the same)
+            v4 == IF (e.ok /\ ~e.panic) \/ s.inj THEN {} ELSE {<<e.seq, "OpOK">>}
         IN [s EXCEPT !.base = IF g \in DOMAIN s.base THEN @ ELSE Put(@, g, s.vec), !.viol = @ \cup v1 \cup v2 \cup v3 \cup v4,
                      !.nops = @ + 1, !.lastret = e]
     ELSE IF e.e = "obs" /\ e.p = 1 /\ Has(s.cur, "grp") /\ Has(e, "openfds") THEN
